@@ -130,9 +130,17 @@ def run_all(v, hists, wd, tier, pid="C12", ls_after=("open", "write", "pwrite", 
 
     def one_tr(h):
         return wasi.run_history(exe_tr, h["calls"], wd, h["id"] + "-tr", setup=h["setup"], ls_after=ls_after)
-    results = pmap(one, hists) + pmap(one_tr, sub)
+    # an embedder may pre-open a directory by path alone or hand over a directory descriptor it has opened as well: the guest
+    # sees the same pre-open either way
+    sub2 = hists[1::4] if tier == "quick" else hists
+
+    def one_nat(h):
+        return wasi.run_history(exe, h["calls"], wd, h["id"] + "-nat", setup=h["setup"], ls_after=ls_after, native_preopen=True)
+    results = pmap(one, hists) + pmap(one_tr, sub) + pmap(one_nat, sub2)
     distinct = set()
-    for h, (recs, index, err, rc, sb) in zip(list(hists) + list(sub), results):
+    tags = [""] * len(hists) + ["-tr"] * len(sub) + ["-nat"] * len(sub2)
+    for h, tag, (recs, index, err, rc, sb) in zip(list(hists) + list(sub) + list(sub2), tags, results):
+        h2id = h["id"] + tag
         ns = len(h["setup"])
         by_i = {r["i"]: r for r in recs if "i" in r}
         poisoned = False
@@ -146,6 +154,8 @@ def run_all(v, hists, wd, tier, pid="C12", ls_after=("open", "write", "pwrite", 
                                                           "calls_so_far": [x["call"] for x in h["calls"][:j + 1]]})
                 poisoned = True
                 break
+            if h2id.endswith("-nat") and kind == "call" and c.get("fd") == 3 and c["call"] in ("tell", "seek", "sync", "datasync", "read", "pread", "write", "pwrite", "filestat"):
+                break                    # data calls on a pre-open that HAS a native descriptor go to the host (the model describes the path-only pre-open)
             if m["errno"] == 999:
                 # (an unspecified seek - on a directory - moves a position the model does not track, and later errors depend on it)
                 if c["call"] in ("tell", "read", "pread", "filestat", "pathstat", "readlink", "fdstat", "readdir", "sync", "datasync", "prestat", "prestatname"):
